@@ -14,12 +14,13 @@ GcPost itself (a different tie-break among equally old data is not a violation).
 import json
 import os
 
+import covutil
 import vlib
 
 LEVEL = "model_checking"
 META = {
     "text": "TLC runs spec/StoreGc.tla (Store.Gc loop by loop on slice+index metrics, RemoveOldestDatum tie-breaking included) from "
-            "every store of 1 metric x <=3 (thorough 4, model-only 5) data x timestamps 1-3(4) x expiry 0-2 x limit 0-3(4) and of 2 "
+            "every store of 1 metric x <=3 (thorough 4, model-only 5) data x timestamps 1-3 x expiry 0-2 x limit 0-3(4) and of 2 "
             "metrics x <=2 data, at every GC time 1-5(6), checking the statement GcPost; every finished pass is replayed on a real "
             "metrics.Store through Store.Gc() and the stores compared datum by datum.",
     "note": "Gc reads time.Now(): model time t is mapped to now-(T-t)h+30min, so 'older than expiry' is reproduced for all integer "
@@ -119,20 +120,20 @@ def run(ctx):
     drift = []
     seen = []
     if ctx.thorough:
-        configs = [("one-metric", cfg(1, 4, 4, 2, 4, 6)), ("two-metrics", cfg(2, 2, 3, 1, 2, 4))]
+        configs = [("one-metric", cfg(1, 4, 3, 2, 4, 6)), ("two-metrics", cfg(2, 2, 2, 1, 2, 4))]
     else:
         configs = [("one-metric", cfg(1, 3, 3, 2, 3, 5)), ("two-metrics", cfg(2, 2, 2, 1, 1, 3))]
     for name, c in configs:
-        r = vlib.tlc(ctx, "StoreGc", c, label="StoreGc-" + name, timeout=2400,
-                     coverage=(ctx.thorough and name == "two-metrics"))
-        if r.zero_cov:
-            raise vlib.InfraError("actions never taken in StoreGc.tla: %s" % r.zero_cov)
+        r = vlib.tlc(ctx, "StoreGc", c, label="StoreGc-" + name, timeout=2400)
         seen += replay_cases(ctx, binary, r.cases, name, drift)
         for x in [x for x in r.cases if nontrivial(x)][7:9]:
             ctx.sample(x)
     if ctx.thorough:
-        # model only: five data per metric
-        vlib.tlc(ctx, "StoreGc", cfg(1, 5, 3, 2, 4, 5, emit=False), label="StoreGc-five-data", timeout=2400)
+        # model only: five data per metric; and a small configuration with coverage: no action may be vacuous
+        vlib.tlc(ctx, "StoreGc", cfg(1, 5, 2, 1, 3, 4, emit=False), label="StoreGc-five-data", timeout=2400)
+        r = vlib.tlc(ctx, "StoreGc", cfg(2, 2, 2, 1, 1, 3, emit=False), label="StoreGc-coverage", coverage=True, timeout=2400)
+        if covutil.final_zero_cov(r.stdout):
+            raise vlib.InfraError("actions never taken in StoreGc.tla: %s" % covutil.final_zero_cov(r.stdout))
     ctx.cov["distinct_nontrivial"] = sum(1 for c in seen if nontrivial(c))
     ctx.cov["exhaustive"] = True
     ctx.cov["rule"] = ("every (store, T) within the bounds is one Gc pass replayed on a real Store; non-trivial = some metric with >= 2 "
